@@ -140,3 +140,7 @@ impl PartialEq<&str> for HpoTermId {
         self == &HpoTermId::new(other)
     }
 }
+
+#[cfg(kani)]
+#[path = "/verif/kani/hpotermid.rs"]
+mod verif_kani;
